@@ -239,7 +239,23 @@ func run(c *mon.Ctx) {
 			setter(c, "ZeroContinuityCounter", ref.HCC, &p, 0, func(q *packet.Packet) { q.ZeroContinuityCounter() })
 			p = body(k, r)
 			p[3] = byte(b3)
-			setter(c, "IncContinuityCounter", ref.HCC, &p, (cc+1)&15, func(q *packet.Packet) { q.IncContinuityCounter() })
+			// the in-place increment takes no value and is not one of the copy-returning helpers: the statement
+			// fixes only the frame (no other bit changes); the counter either advances by one modulo 16 or, for a
+			// packet without payload, may stay (ISO 13818-1 2.4.3.3). The first version demanded the advance.
+			{
+				before := p
+				p.IncContinuityCounter()
+				c.Eval(1)
+				after := uint64(p[3] & 0x0f)
+				rest := p
+				rest[3] = rest[3]&0xf0 | before[3]&0x0f
+				if rest != before || (after != (cc+1)&15 && !(after == cc && b3&0x10 == 0)) {
+					c.Fail("setter:IncContinuityCounter", fmt.Sprintf("IncContinuityCounter on header byte %#02x: counter %d -> %d, or bits outside the counter changed", b3, cc, after), wit{Op: "IncContinuityCounter", Before: mon.Hex(before[:8]), After: mon.Hex(p[:8])})
+				}
+				if after == cc {
+					c.Count("inc_in_place.left_alone_without_payload")
+				}
+			}
 			p = body(k, r)
 			p[3] = byte(b3)
 			arg := p
